@@ -2,16 +2,22 @@
 
   C09.R1  every node name that reaches the networkx graph during construction (any call on the graph object, membership, subscripts)
           has passed a truncation that was *verified* by C09.R3 - found by data flow from the constructor's module list and from the
-          accessors of `Import`, never by the name of a helper
+          accessors of `Import`, never by the name of a helper.  Loop targets are bound strongly inside the loop body (`LoopFlow`); a
+          may-flow finding is reported only if the values observed at that sink while the constructor is evaluated (C09.R6) do not
+          contradict it (all of them truncated names, for every limit)
   C09.R2  every edge insertion is guarded by `start != end` on exactly the (flattened) values that are inserted; any other test of the
           construction code that depends on the limit and decides about a pair of names is tabulated and must be 'both flatten to the
           same node' (or its negation) - not a string-prefix relation; whether an edge is inserted never depends on reachability
           (has_path & co.) between its ends
   C09.R3  whatever turns a raw name into a graph node (method, module-level function, functools.partial, lambda, conditional
           expression) is tabulated over a finite table of names and limits: identity without a limit, the first limit+1 dotted
-          components otherwise; neither it nor the construction code keeps node names in state shared between graphs
+          components otherwise; neither it nor the construction code keeps node names in state shared between graphs.  The names come
+          from the pool, from an idealised Import and (extra rounds) from records of the concrete Import classes, constructed in the
+          evaluator (a RelativeImport's parents list is not the prefix chain of its importee); a list of names may also be the quotient
+          of a chain (`(parents + [name])[: limit + 1]`); raw locals with one definition are evaluated through it
   C09.R4  tabulated from the public entry points down to the constructor call: the limit the graph receives is the user's limit plus the
-          number of levels between root_path and module_path; None stays None; no offset when the paths coincide
+          number of levels between root_path and module_path; None stays None; no offset when the paths coincide; a second call for
+          the same paths with another limit (evaluated on the module / class state the first call left) constructs its own graph
   C09.R5  the limit acts through the truncation only: an import (a module) is withheld from the graph because of the limit only if
           the graph would drop it anyway (both ends flatten to the same node)
   C09.R6  the constructor evaluated on model modules / imports (absolute and relative, as the concrete Import classes hand them out) and a
